@@ -122,6 +122,16 @@ ReprojPixelOK(g, ext, p, obs) ==
                   /\ ~out(2)
      /\ l = -1 => ~in(2)
 
+\* a feature-info request in another reference system than the source supports (WMSInfoClient._get_transformed_query):
+\* p as above for the clicked pixel; the upstream is asked about pixel (ui, uj) of an image of uw x uh pixels, that pixel
+\* covers the rectangle r = <<x0, y0, x1, y1>> on the grid (1/1000 lattice units).  The pixel asked about exists, and its
+\* area lies within one client pixel of the clicked point.
+ReprojInfoOK(p, uw, uh, ui, uj, r) ==
+  /\ uw >= 1 /\ uh >= 1 /\ ui \in 0 .. uw - 1 /\ uj \in 0 .. uh - 1
+  /\ p.fx > 0 /\ p.fy > 0
+  /\ ReprojDist(r[1], r[3], p.gx) <= p.fx
+  /\ ReprojDist(r[2], r[4], p.gy) <= p.fy
+
 \* a request that is exactly one stored tile returns that tile unresampled: every pixel shows its own cell
 IsOneTile(g, q) == \E l \in Levels(g) : \E t \in InGridTiles(g, l) :
                       TileBBox(g, t) = <<q[1], q[2], q[3], q[4]>> /\ q[5] = g.tw /\ q[6] = g.th
